@@ -94,12 +94,12 @@ def extreme_values(rows, kidx, vidx, largest):
     """Per group (ascending key order): (key, the group's rows, the rows whose value is minimal / maximal)."""
     out = []
     for k, g in groups(rows, kidx):
-        best = g[0][vidx]
+        best = ref.cell(g[0], vidx)
         for r in g[1:]:
-            c = ref.cmp(r[vidx], best)
+            c = ref.cmp(ref.cell(r, vidx), best)
             if (c > 0) if largest else (c < 0):
-                best = r[vidx]
-        out.append((k, g, [r for r in g if ref.cmp(r[vidx], best) == 0]))
+                best = ref.cell(r, vidx)
+        out.append((k, g, [r for r in g if ref.cmp(ref.cell(r, vidx), best) == 0]))
     return out
 
 
